@@ -10,6 +10,7 @@ import GoSecs.Drv.Secs1
 import GoSecs.Drv.Linktest
 import GoSecs.Drv.Responder
 import GoSecs.Drv.Ownership
+import GoSecs.Drv.Lifecycle
 
 open GoSecs
 
@@ -22,7 +23,8 @@ def handlers : List (String → List String → Option String) := [
   Drv.Secs1.handle,
   Drv.Linktest.handle,
   Drv.Responder.handle,
-  Drv.Ownership.handle
+  Drv.Ownership.handle,
+  Drv.Lifecycle.handle
 ]
 
 def dispatch (line : String) : String :=
